@@ -159,6 +159,8 @@ fn get_client(root_certs: &[String]) -> Result<Client, Error> {
 	default_headers.append(header::ACCEPT_LANGUAGE, "en-US,en;q=0.5".parse().unwrap());
 	default_headers.append(header::USER_AGENT, useragent.parse().unwrap());
 	client_builder = client_builder.default_headers(default_headers);
+	// A signed request is bound to its URL and its nonce: it is never sent again by the HTTP library.
+	client_builder = client_builder.redirect(reqwest::redirect::Policy::none());
 	for crt_file in root_certs.iter() {
 		#[cfg(feature = "crypto_openssl")]
 		{
@@ -175,17 +177,33 @@ fn get_client(root_certs: &[String]) -> Result<Client, Error> {
 
 pub async fn get(endpoint: &mut Endpoint, url: &str) -> Result<ValidHttpResponse, HttpError> {
 	let client = get_client(&endpoint.root_certificates)?;
-	rate_limit(endpoint).await;
-	let response = client
-		.get(url)
-		.header(header::ACCEPT, CONTENT_TYPE_JSON)
-		.send()
-		.await?;
-	update_nonce(endpoint, &response)?;
-	check_status(&response)?;
-	ValidHttpResponse::from_response(response)
-		.await
-		.map_err(HttpError::from)
+	let mut url = url.to_string();
+	// Redirections are followed here, so that each of these requests goes through the rate limits.
+	for _ in 0..crate::DEFAULT_HTTP_MAX_REDIRECT {
+		rate_limit(endpoint).await;
+		let response = client
+			.get(&url)
+			.header(header::ACCEPT, CONTENT_TYPE_JSON)
+			.send()
+			.await?;
+		update_nonce(endpoint, &response)?;
+		if response.status().is_redirection() {
+			if let Some(location) = response.headers().get(header::LOCATION) {
+				let location = header_to_string(location)?;
+				url = response
+					.url()
+					.join(&location)
+					.map_err(|e| Error::from(format!("{location}: invalid redirection: {e}")))?
+					.to_string();
+				continue;
+			}
+		}
+		check_status(&response)?;
+		return ValidHttpResponse::from_response(response)
+			.await
+			.map_err(HttpError::from);
+	}
+	Err("too many redirections".into())
 }
 
 pub async fn post<F>(
